@@ -18,7 +18,7 @@ TABLE_TYPES = ["OTU table", "Pathway table", "Function table",
 
 ID_CLASSES = ['ascii', 'one', 'long', 'punct', 'space', 'slash', 'numeric',
               'natsort', 'latin1', 'cjk', 'astral', 'prefix', 'case',
-              'reserved', 'decimal', 'mixed']
+              'reserved', 'decimal', 'control', 'mixed']
 # classes safe for the classic TSV format (no tab/newline/#-start/edge blank)
 VALUE_CLASSES = ['count', 'bigcount', 'dyadic', 'frac', 'neg', 'tiny',
                  'manydigits', 'huge', 'subnormal', 'const', 'mixed']
@@ -79,6 +79,12 @@ def gen_ids(r, n, cls, prefix):
         base = 0 if prefix.lower() < 'p' else 1000
         return _uniq(r, n, lambda i: r.choice(pool) if r.random() < .6
                      else str(base + r.randrange(1000)))
+    if cls == 'control':
+        # ASCII ids holding a control character other than tab / newline /
+        # carriage return / NUL (legal in JSON once escaped, in HDF5 as is)
+        return _uniq(r, n, lambda i: prefix + r.choice('abc') + r.choice(
+            ['\x0b', '\x0c', '\x1f', '\x01', '\x7f', '\x1b', '\x08']) +
+            str(r.randrange(100)))
     if cls == 'natsort':
         return _uniq(r, n, lambda i: '%s%s' % (
             r.choice(['a', 'b', prefix]),
@@ -205,7 +211,9 @@ _TEXTS = ['a', 'soil', 'gut microbiome', 'x/y', 'é', '日本', 'k__Bacteria',
           'None', 'nan', 'true', 'null', 'False', '[]', 'NA']
 _TAXA = ['k__Bacteria', 'p__Firmicutes', 'c__Bacilli', 'o__Lactobacillales',
          'f__é', 'g__日本', 's__x y', 'p__[Thermi]', 'a/b', 'x,y',
-         'p__Protéobactéries_éééé', 's__日本語の分類群の長い名前です']
+         'p__Protéobactéries_éééé', 's__日本語の分類群の長い名前です',
+         # levels that hold the separator of the flat spelling themselves
+         'k__Bacteria;p__Firmicutes', 'p__Firmicutes;c__Bacilli', 'k__A; p__B']
 
 
 def gen_text(r, nonempty=False):
@@ -242,6 +250,11 @@ def gen_metadata(r, ids, kind, allow_empty_text=True):
         used.add(name)
         cats.append((name, k))
     md = []
+    # now and then every id's lineage is the same sequence of names cut into
+    # levels at different places (the joined text coincides, the lists do not)
+    regroup = None
+    if r.random() < .1:
+        regroup = [r.choice(_TAXA[:8]) for _ in range(r.randint(2, 4))]
     for _ in ids:
         d = {}
         for name, k in cats:
@@ -265,6 +278,14 @@ def gen_metadata(r, ids, kind, allow_empty_text=True):
                 ln = r.randint(1, 4) if r.random() < .93 else r.randint(11,
                                                                         14)
                 d[name] = [r.choice(_TAXA) for _ in range(ln)]
+                if regroup is not None:
+                    lv = [regroup[0]]
+                    for tok in regroup[1:]:
+                        if r.random() < .5:
+                            lv[-1] = lv[-1] + ';' + tok
+                        else:
+                            lv.append(tok)
+                    d[name] = lv
         md.append(d)
     if len(cats) > 1 and r.random() < .4:
         # the same categories on every id, but not written in the same order
